@@ -9,6 +9,11 @@
 //        -> N <status> <period> <subSteps> <iterations> A <nattempts> (t dt period ncalls)* U u_1.. u0.. u1.. u10..
 //   MCONV <file.mtest> <eeps> <seps> <iter> <t> <dt> <nu> u1.. <ns> s1.. <n> du.. <n> r..
 //        the REAL MTest::checkConvergence (norm part + active constraints) of the MTest object read from <file.mtest>  -> M <0|1>
+//   EVT <active> <na> a1.. <nd> d1.. <ne> e1..   the REAL ConstraintBase::treatEvent (through an ImposedGradient) with the given initial
+//        activity, activating and desactivating events, on the sequence of events e1..   -> T (<active after the event> <returned value>)*
+//   FEV <nev> (<name> C <v> | <name> L <n> t1 v1 ... | <name> F <formula>)* <formula> <m> q1 ... qm
+//        the REAL FunctionEvolution (mtest/src/FunctionEvolution.cxx) built on an EvolutionManager holding constant, LPI and function
+//        evolutions (formulas without blanks)   -> V v1 ... vm K <isConstant>
 #include <cstdio>
 #include <cstdlib>
 #include <string>
@@ -17,6 +22,7 @@
 #include <iostream>
 #include <memory>
 #include "MTest/Evolution.hxx"
+#include "MTest/FunctionEvolution.hxx"
 #include "MTest/Study.hxx"
 #include "MTest/StudyCurrentState.hxx"
 #include "MTest/StructureCurrentState.hxx"
@@ -341,6 +347,61 @@ int main() {
         tfel::math::vector<real> r(n2);
         for (auto& x : r) x = rd(is);
         std::printf("M %d\n", l.t->checkConvergence(l.state, du, r, o, iter, t, dt) ? 1 : 0);
+      } else if (cmd == "EVT") {
+        int act;
+        std::size_t na, nd, ne;
+        is >> act >> na;
+        std::vector<std::string> a(na);
+        for (auto& x : a) is >> x;
+        is >> nd;
+        std::vector<std::string> d(nd);
+        for (auto& x : d) is >> x;
+        mtest::ImposedGradient g(0, mtest::make_evolution(0.));
+        g.setActive(act != 0);
+        if (!a.empty()) g.setActivatingEvents(a);
+        if (!d.empty()) g.setDesactivatingEvents(d);
+        is >> ne;
+        std::printf("T");
+        for (std::size_t i = 0; i != ne; ++i) {
+          std::string e;
+          is >> e;
+          const auto r = g.treatEvent(e);
+          std::printf(" %d %d", g.isActive() ? 1 : 0, r ? 1 : 0);
+        }
+        std::printf("\n");
+      } else if (cmd == "FEV") {
+        std::size_t nev, m;
+        is >> nev;
+        mtest::EvolutionManager evm;  // outlives the FunctionEvolutions, which keep a reference to it
+        for (std::size_t i = 0; i != nev; ++i) {
+          std::string name, kind;
+          is >> name >> kind;
+          if (kind == "C") {
+            evm[name] = mtest::make_evolution(rd(is));
+          } else if (kind == "L") {
+            std::size_t n;
+            is >> n;
+            std::vector<real> t(n), v(n);
+            for (std::size_t j = 0; j != n; ++j) {
+              t[j] = rd(is);
+              v[j] = rd(is);
+            }
+            evm[name] = std::make_shared<mtest::LPIEvolution>(t, v);
+          } else {
+            std::string f;
+            is >> f;
+            evm[name] = std::make_shared<mtest::FunctionEvolution>(f, evm);
+          }
+        }
+        std::string f;
+        is >> f;
+        mtest::FunctionEvolution e(f, evm);
+        is >> m;
+        std::printf("V");
+        for (std::size_t i = 0; i != m; ++i) {
+          std::printf(" %a", e(rd(is)));
+        }
+        std::printf(" K %d\n", e.isConstant() ? 1 : 0);
       } else {
         std::printf("E unknown\n");
       }
